@@ -178,6 +178,7 @@ impl Check for C06 {
         }
         crate::gen::session_variants(&mut r, &mut events, 4, 12, 0);
         crate::gen::nest_variants(&mut r, &mut events);
+        crate::gen::unwind_variants(&mut r, &mut events);
         crate::gen::decliner_variants(&mut r, &mut events);
         Trace { check: "C06".into(), seed, host_tz: env.host_tz.clone(), salt: r.next(), mode: if faults { "faults".into() } else { "fault-free".into() }, events }
     }
